@@ -586,3 +586,93 @@ CASES += [
                             var_id = var_id_counter - 2;
 ''', expect={'C11': 'X5'}),
 ]
+
+# fifth round of behaviour-preserving patches (bn17 exporters, bn18 CLI main, bn19 generator input/output, bn20 tokenizer and parser
+# front end): all 32 silent after the generalisations of DESIGN.md 15.3; each generalisation has a must-fire twin in the same style below
+_BN5 = {17: ['C07', 'C10', 'C12', 'C13', 'C14'], 18: ['C07', 'C09', 'C10', 'C11', 'C12', 'C14', 'C20'], 19: ['C15', 'C16', 'C17', 'C18'],
+        20: ['C01', 'C02', 'C03', 'C04', 'C06', 'C08', 'C09', 'C10', 'C11', 'C12', 'C13', 'C20']}
+_BN5_FILE = {17: IO, 18: M, 19: G, 20: P}
+for _k, _checks in _BN5.items():
+    for _n in range(1, 9):
+        CASES.append(dict(id='bn%d-%02d' % (_k, _n), kind='silent', file=_BN5_FILE[_k], patch='bn%d-%02d.diff' % (_k, _n), checks=_checks, control=False))
+
+CASES += [
+ # bn17-03: edge filter as a local closure over a spelt-out array of (flag, child) pairs
+ dict(id='dot-array-loop-children-swapped', kind='fire', file=IO, patch='bn17-03.diff', old='in [(true, l), (false, r)]', new='in [(true, r), (false, l)]', expect={'C14': 'X1'}, control=False),
+ dict(id='dot-closure-filter-wrong-leaf', kind='fire', file=IO, patch='bn17-03.diff',
+      old='BDD::True => {\n                        matches!(self.filter, TruthTableEntry::Any | TruthTableEntry::True)',
+      new='BDD::True => {\n                        matches!(self.filter, TruthTableEntry::Any | TruthTableEntry::False)', expect={'C14': 'X2'}, control=False),
+ # bn17-05: edges.extend(children.iter().enumerate().map(..))
+ dict(id='parsetree-extend-map-skips-first', kind='fire', file=PIO, patch='bn17-05.diff', old='edges.extend(f.iter().enumerate()', new='edges.extend(f.iter().skip(1).enumerate()', expect={'C14': 'X7'}, control=False),
+ dict(id='parsetree-extend-map-wrong-list', kind='fire', file=PIO, patch='bn17-05.diff', old='edges.extend(b.iter().enumerate()', new='edges.extend(a.iter().enumerate()', expect={'C14': 'X6'}, control=False),
+ # bn17-07: NamedSymbol identified through a key() helper
+ dict(id='symbol-key-helper-collapses-ids', kind='fire', file=SY, patch='bn17-07.diff', old='        self.id\n    }', new='        self.id / 2\n    }', expect={'C13': 'violation'}, control=False),
+ # bn18-02: the reader is chosen by a helper with early returns
+ dict(id='cli-reader-helper-ignores-file', kind='fire', file=M, patch='bn18-02.diff', old='''    if let Some(filename) = input_filename {
+        let file = File::open(filename)?;
+        return Ok(Box::new(BufReader::new(file)));
+    }
+''', new='    let _ = input_filename;\n', expect={'C10': 'input channels'}, control=False),
+ # bn18-03: the ordering argument is a match on the option
+ dict(id='cli-ordering-match-takes-input-file', kind='fire', file=M, patch='bn18-03.diff', old='let pre_variable_ordering = match args.ordering {', new='let pre_variable_ordering = match args.parsetree.clone() {', expect={'C11': 'ordering flow'}, control=False),
+ # bn18-04: the benchmark loop counts 1..=repeat
+ dict(id='cli-bench-inclusive-guard-dropped', kind='fire', file=M, patch='bn18-04.diff', old='if args.benchmark.is_some() && repeat > 0 {', new='if args.benchmark.is_some() {', expect={'C12': 'violation'}, control=False),
+ # bn18-05: the result is shadowed instead of assigned
+ dict(id='cli-shadowed-model-not-shown', kind='fire', file=M, patch='bn18-05.diff', old='''    let result = if args.model {
+        input_parsed.env.model(result)
+    } else {
+        result
+    };''', new='''    let modelled = if args.model {
+        input_parsed.env.model(result.clone())
+    } else {
+        result.clone()
+    };
+    let _ = &modelled;''', expect={'C10': 'model before printing'}, control=False),
+ dict(id='cli-shadowed-retain-condition-flipped', kind='fire', file=M, patch='bn18-05.diff', old='let result = if args.retain_choices.is_any() {', new='let result = if !args.retain_choices.is_any() {', expect={'C20': 'retain'}, control=False),
+ dict(id='cli-model-before-retain', kind='fire', file=M, old='''    if !args.retain_choices.is_any() {
+        result = input_parsed
+            .env
+            .retain_choice_bottom_up(result, args.retain_choices);
+    }
+''', new='''    if args.model {
+        result = input_parsed.env.model(result);
+    }
+    if !args.retain_choices.is_any() {
+        result = input_parsed
+            .env
+            .retain_choice_bottom_up(result, args.retain_choices);
+    }
+''', expect={'C10': 'X4'}, control=False),
+ # bn19-04: the command line is destructured
+ dict(id='clique-destructured-wrong-flag', kind='fire', file=C, patch='bn19-04.diff', old='    if all {\n', new='    if undirected {\n', expect={'C16': 'violation'}, control=False),
+ # bn19-05: one read from a boxed source
+ dict(id='sudoku-boxed-source-never-stdin', kind='fire', file=U, patch='bn19-05.diff', old='None => Box::new(io::stdin()),', new='None => Box::new(File::open("puzzle.txt")?),', expect={'C17': 'violation'}, control=False),
+ # bn19-08: dot output through a helper taking the keyword and the arrow as text
+ dict(id='graph-write-dot-wrong-arrow', kind='fire', file=G, patch='bn19-08.diff', old='write_dot(&mut writer, "graph", "--", &selection)?;', new='write_dot(&mut writer, "graph", "->", &selection)?;', expect={'C18': 'writer'}, control=False),
+ dict(id='graph-write-dot-wrong-keyword', kind='fire', file=G, patch='bn19-08.diff', old='write_dot(&mut writer, "digraph", "->", &selection)?;', new='write_dot(&mut writer, "graph", "->", &selection)?;', expect={'C18': 'dot header'}, control=False),
+ dict(id='graph-write-dot-reversed', kind='fire', file=G, patch='bn19-08.diff', old='writeln!(writer, "    {} {} {}", from, arrow, to)?;', new='writeln!(writer, "    {} {} {}", to, arrow, from)?;', expect={'C18': 'writer'}, control=False),
+ # bn20-02: fresh ids through the entry API
+ dict(id='tokenize-entry-counter-not-advanced', kind='fire', file=P, patch='bn20-02.diff', old='                                var_id_counter += 1;\n', new='', expect={'C11': 'X5', 'C02': 'X5'}, control=False),
+ dict(id='tokenize-entry-stale-id', kind='fire', file=P, patch='bn20-02.diff', old='''                                let fresh_id = var_id_counter;
+                                var_id_counter += 1;
+                                fresh_id''', new='''                                var_id_counter += 1;
+                                var_id_counter - 2''', expect={'C11': 'X5'}, control=False),
+]
+
+CASES += [
+ # bn20-05: extract_vars as a loop with a seen-set
+ dict(id='extract-vars-loop-no-dedup', kind='fire', file=P, patch='bn20-05.diff', old='                if seen.insert(v) {\n                    vars.push(v.clone());\n                }',
+      new='                seen.insert(v);\n                vars.push(v.clone());', expect={'C11': 'extract_vars'}, control=False),
+ dict(id='extract-vars-loop-keeps-repeats-only', kind='fire', file=P, patch='bn20-05.diff', old='if seen.insert(v) {', new='if !seen.insert(v) {', expect={'C11': 'extract_vars'}, control=False),
+ # bn20-08: filter spellings as one matches! over (self, s)
+ dict(id='filter-spelling-tuple-swapped', kind='fire', file=TT, patch='bn20-08.diff', old='(Self::True, "true" | "True" | "t" | "T" | "1")', new='(Self::True, "true" | "True" | "t" | "T" | "0")', expect={'C10': 'violation', 'C20': 'violation'}, control=False),
+]
+
+CASES += [
+ # the content of each input channel reaches the parser whole (C10: "the same whether the formula arrives via --evaluate, a file or stdin")
+ dict(id='cli-file-channel-truncated', kind='fire', file=M, old='        Box::new(BufReader::new(file)) as Box<dyn BufRead>\n    } else {\n        Box::new(BufReader::new(io::stdin()))',
+      new='        Box::new(BufReader::new(io::Read::take(file, 65536))) as Box<dyn BufRead>\n    } else {\n        Box::new(BufReader::new(io::stdin()))', expect={'C10': 'input channel contents'}, control=False),
+ dict(id='cli-stdin-locked', kind='silent', file=M, old='Box::new(BufReader::new(io::stdin())) as Box<dyn BufRead>', new='Box::new(BufReader::new(io::stdin().lock())) as Box<dyn BufRead>', checks=['C10', 'C07', 'C12'], control=False),
+ dict(id='cli-evaluate-channel-first-line', kind='fire', file=M, old='Box::new(BufReader::new(inline_str.as_bytes())) as Box<dyn BufRead>',
+      new='Box::new(BufReader::new(inline_str.lines().next().unwrap_or("").as_bytes())) as Box<dyn BufRead>', expect={'C10': 'input channel'}, control=False),
+]
